@@ -100,7 +100,7 @@ func (c *embeddedRuleguardChecker) WalkFile(f *ast.File) {
 	runRuleguardEngine(c.ctx, f, c.engine, &ruleguard.RunContext{
 		Pkg:         c.ctx.Pkg,
 		Types:       c.ctx.TypesInfo,
-		Sizes:       c.ctx.SizesInfo,
+		Sizes:       safeSizes{c.ctx.SizesInfo},
 		GoVersion:   ruleguard.GoVersion(c.ctx.GoVersion),
 		Fset:        c.ctx.FileSet,
 		TruncateLen: 100,
